@@ -98,8 +98,11 @@ def read_touchstone2(text, num):
     ports = int(kw['number of ports'])
     nf = int(kw['number of frequencies'])
     fmt = kw.get('matrix format', 'full').lower()
-    order = kw.get('two-port data order', kw.get('two-port order', '12_21' if ports != 2 else None))
-    if ports == 2 and order is None: raise FormatError('two-port order missing')
+    order = kw.get('two-port data order', '12_21' if ports != 2 else None)        # the specification's keyword; nothing else is accepted
+    if ports == 2 and order is None: raise FormatError('[Two-Port Data Order] missing (required for 2-port files by Touchstone 2.0)')
+    known = {'version', 'number of ports', 'two-port data order', 'number of frequencies', 'number of noise frequencies', 'matrix format', 'mixed-mode order'}
+    for k in kw:
+        if k not in known: raise FormatError('unknown keyword [%s]' % k)
     if fmt == 'full': cells = [(r_, c) for r_ in range(ports) for c in range(ports)]
     elif fmt == 'upper': cells = [(r_, c) for r_ in range(ports) for c in range(r_, ports)]
     elif fmt == 'lower': cells = [(r_, c) for r_ in range(ports) for c in range(0, r_ + 1)]
